@@ -220,6 +220,10 @@ func Spawn() uint64 {
 func Enter(tok uint64) {
 	if s := Sched; s != nil && tok != 0 {
 		s.Enter(tok)
+		// "spawned but not yet running" is a real state of a goroutine: its first step is a
+		// schedule point, so the explorer (not the Go runtime) decides when it starts relative
+		// to what its parent does next
+		s.Gate(&Op{Kind: OpYield, Name: "go", Site: "go"})
 	}
 }
 
